@@ -314,6 +314,7 @@ type runner struct {
 	x        *mc.Exec
 	noNested bool
 	scope    string // "all" or "savepoint": which driver calls are fault points
+	der      int    // handle derivation used by every block
 	active   bool
 	inj      []string
 	where    string
@@ -429,7 +430,10 @@ func (r *runner) read(tx *gorm.DB, b *Block, n int) error {
 
 // body is the function handed to Transaction for block b.
 func (r *runner) body(b *Block, tx *gorm.DB) error {
-	if err := r.write(tx, b, "a"); err != nil {
+	// h: the handle the block's statements go through; nested Transaction
+	// calls and the actions on "the block's own handle" stay on tx
+	h := derive(tx, r.der)
+	if err := r.write(h, b, "a"); err != nil {
 		return err
 	}
 	for i, k := range b.Kids {
@@ -445,14 +449,14 @@ func (r *runner) body(b *Block, tx *gorm.DB) error {
 			}
 			r.logf("   B%d ignores the error of B%d", b.id, k.id)
 		}
-		if err := r.read(tx, b, i); err != nil {
+		if err := r.read(h, b, i); err != nil {
 			return err
 		}
 	}
-	if err := r.write(tx, b, "b"); err != nil {
+	if err := r.write(h, b, "b"); err != nil {
 		return err
 	}
-	if err := r.action(tx, b); err != nil {
+	if err := r.action(tx, h, b); err != nil {
 		return err
 	}
 	switch b.Outcome {
@@ -467,7 +471,7 @@ func (r *runner) body(b *Block, tx *gorm.DB) error {
 // action performs the block's extra action on the block's own handle. A
 // non-nil result is returned by the block at once (only a failed manual
 // SavePoint or its write do that).
-func (r *runner) action(tx *gorm.DB, b *Block) error {
+func (r *runner) action(tx, h *gorm.DB, b *Block) error {
 	switch b.Act {
 	case actAddError:
 		tx.AddError(r.markers[b.id])
@@ -477,7 +481,7 @@ func (r *runner) action(tx *gorm.DB, b *Block) error {
 		key := fmt.Sprintf("w%da", b.id) // exists: duplicate primary key
 		r.inj = r.inj[:0]
 		r.where = fmt.Sprintf("B%d.failing-insert(%s)", b.id, key)
-		err := tx.Create(&Row{K: key, V: 9}).Error
+		err := h.Create(&Row{K: key, V: 9}).Error
 		if err == nil {
 			r.fail("duplicate insert succeeded", "%s: Create returned nil", r.where)
 		}
@@ -506,7 +510,7 @@ func (r *runner) action(tx *gorm.DB, b *Block) error {
 		}
 		snap := copyKeys(r.m.cur)
 		r.tracef("B%d manual SavePoint", b.id)
-		if err := r.writeKey(tx, b, fmt.Sprintf("w%dm", b.id)); err != nil {
+		if err := r.writeKey(h, b, fmt.Sprintf("w%dm", b.id)); err != nil {
 			return err
 		}
 		r.where = fmt.Sprintf("B%d.RollbackTo(%s)", b.id, name)
@@ -641,6 +645,7 @@ type TreeCase struct {
 	Cfg      int      `json:"config_bits"`
 	Dial     int      `json:"dialector"`
 	Scope    string   `json:"fault_scope"`
+	Derive   int      `json:"derive,omitempty"` // how every block derives its statement handle from tx (see deriveName)
 	Choices  []int    `json:"choices"`
 	Readable string   `json:"readable,omitempty"`
 	Faults   []string `json:"faults,omitempty"`
@@ -653,7 +658,7 @@ func execTree(c *TreeCase, x *mc.Exec) (o *treeObs) {
 	defer env.Close()
 	id := 0
 	c.Prog.number(&id)
-	r := &runner{env: env, x: x, noNested: c.Cfg&cfgNoNested != 0, scope: c.Scope, o: o,
+	r := &runner{env: env, x: x, noNested: c.Cfg&cfgNoNested != 0, scope: c.Scope, der: c.Derive, o: o,
 		errs: map[int]*blockErr{}, pvs: map[int]*panicVal{}, markers: map[int]*markerErr{}, handleErr: map[int]error{}}
 	c.Prog.preorder(func(b *Block) {
 		r.errs[b.id] = &blockErr{b.id}
@@ -760,6 +765,9 @@ func treeTags(c *TreeCase, o *treeObs) []string {
 	}
 	if o.Act != actNone {
 		tags = append(tags, "act:"+actName[o.Act])
+	}
+	if c.Derive != derNone {
+		tags = append(tags, "derive:"+deriveName[c.Derive])
 	}
 	return tags
 }
